@@ -69,7 +69,7 @@ auto ebpps_sample<T,A>::get_sample() const -> result_type {
   const bool include_partial = next_double() < c_frac;
   const uint32_t result_size = static_cast<uint32_t>(data_.size()) + (include_partial ? 1 : 0);
 
-  result_type result;
+  result_type result(allocator_);
   result.reserve(result_size);
   std::copy(data_.begin(), data_.end(), std::back_inserter(result));
   if (include_partial)
